@@ -7,6 +7,7 @@ import copy
 import enum
 import json
 import pickle
+import re
 
 from typedpy import Structure
 from typedpy.commons import InvalidStructureErr
@@ -824,10 +825,25 @@ def describe(case, impl, model):
             "model": (model or {}).get("res")}
 
 
+RERAISE_CRASH = re.compile(r"(\w+)\.__init__\(\) missing \d+ required positional argument")
+
+
+def reraise_crash(impl):
+    """the library failed while BUILDING its own exception (`e.__class__(msg)` for a class whose constructor takes other
+    arguments): name of that class, else None"""
+    for part in (impl, impl.get("chain") or {}):
+        m = RERAISE_CRASH.search(str(part.get("msg", ""))) if "err" in part else None
+        if m:
+            return m.group(1)
+    return None
+
+
 def correspondence(case, impl, model):
     """model `construct` vs real constructor; returns disagreement message or None"""
     if "unbuildable" in impl:
         return None
+    if reraise_crash(impl):
+        return None      # reported by C02 as finding error-class:reraise-crash:<class> (the exception class is an accident)
     if "abstraction_mismatch" in impl:
         return "dump(build(decl)) != decl: " + json.dumps(impl["abstraction_mismatch"])[:800]
     if not model.get("wfDecl", True):
@@ -864,6 +880,8 @@ def chain_correspondence(case, impl, model):
     if "chain" not in impl or "chainRes" not in model:
         return None
     ic, mc = impl["chain"], model["chainRes"]
+    if reraise_crash(impl):
+        return None
     via_deser = any(o["op"] in ("deser", "reser") for o in ic.get("applied", []))
     if "ok" in mc:
         if "ok" not in ic:
